@@ -6,25 +6,61 @@
    ChiaLisp sha256tree program (tools/src/bin/sha256tree-benching.rs) applied to t, under the
    same flags.
 
-   Model/ShaTreeCost.v defines the two programs as trees and two cost functions:
+   Model/ShaTreeCost.v defines the two programs as trees ([native_prog t], [sha256tree_prog]; the
+   latter is pinned to the tool's hex string) and two cost functions
      native_cost ncm t = OP_COST + QUOTE_COST + (the closed formula of C10_sha256tree)
-     clvm_cost ncm t   = a structural recurrence over t, derived by hand from Model/Machine.v
+     clvm_cost ncm t   = a structural recurrence over t
    written with the named constants of the machine and operator models; Pins/C23consts.v
-   compares every one of them (and the program's hex string) with the source on every run.
+   compares every one of them with the source on every run.
 
-   C23_native_lt_clvm   the inequality between the two functions, all trees, both models.
+   C23_native_is_run    the machine (Model/Machine.v under ChiaDialect with ENABLE_SHA256_TREE,
+                        with or without NEW_COST_MODEL, any budget that fits, any sufficient fuel)
+                        runs (sha256tree (q . t)) to (native_cost, tree hash).
+   C23_clvm_is_run      the machine runs the ChiaLisp program on t to (clvm_cost, tree hash):
+                        symbolic execution of the recursive program on the stack machine, by
+                        induction on t (Proofs/ShaTreeExec.v, ShaTreeRun.v). The only premise
+                        about the hash function: its results are 32 bytes long (they are
+                        arguments of sha256 in the program and are charged per byte).
+   C23_native_lt_clvm   the inequality between the two cost functions, all trees, both models.
+   C23                  the statement itself: whenever the ChiaLisp run fits the budget (0 =
+                        unlimited = 2^64-1), both runs succeed, return the same hash, and the
+                        native run is cheaper.
    C23_gap              how large the difference is (>= 1000 per atom + 500 per pair - 4).
    C23_per_byte_equal   the per-byte costs of sha256tree and sha256 are equal in both models:
                         the reason why the inequality survives arbitrarily large atoms.
 
-   That the two functions ARE what the machine charges is, at this commit, established by
-   computation on small trees of every shape (Proofs/ShaTreeCostTests.v: tests, not theorems)
-   and, on every run of the check, against the implementation (family "shacost"). *)
-From Clvm Require Import Model.ShaTreeCost Proofs.ShaTreeCostIneq.
+   Scope: the flag words are exactly ENABLE_SHA256_TREE (0x400) and ENABLE_SHA256_TREE |
+   NEW_COST_MODEL (0x2400); the machine is the tree-store machine (allocator caps and the
+   stack limit are outside it, see Model/Machine.v). The check runs the implementation under
+   further unrelated flags (ENABLE_GC as the tool does, mempool flags, ...) and with shared
+   sub-trees. *)
+From Clvm Require Import Model.ShaTreeCost Proofs.ShaTreeCostIneq Proofs.ShaTreeExec Proofs.ShaTreeRun.
 Open Scope N_scope.
 
 Theorem C23_native_lt_clvm : forall ncm t, native_cost ncm t < clvm_cost ncm t.
 Proof. exact native_lt_clvm. Qed.
+
+Theorem C23_native_is_run : forall P ncm t m fuel,
+  native_cost ncm t <= eff_budget m -> (3 < fuel)%nat ->
+  run_chia P fuel (c23_flags ncm) (native_prog t) nil_s m
+  = Ok (native_cost ncm t, Atom (treehash (p_sha256 P) t)).
+Proof. exact native_is_run. Qed.
+
+Theorem C23_clvm_is_run : forall P ncm t m fuel,
+  (forall b, blen (p_sha256 P b) = 32) ->
+  clvm_cost ncm t <= eff_budget m -> (clvm_steps t < fuel)%nat ->
+  run_chia P fuel (c23_flags ncm) sha256tree_prog t m
+  = Ok (clvm_cost ncm t, Atom (treehash (p_sha256 P) t)).
+Proof. exact clvm_is_run. Qed.
+
+Theorem C23 : forall P ncm t m fuel,
+  (forall b, blen (p_sha256 P b) = 32) ->
+  clvm_cost ncm t <= eff_budget m -> (clvm_steps t < fuel)%nat ->
+  exists cn cc h,
+    run_chia P fuel (c23_flags ncm) (native_prog t) nil_s m = Ok (cn, h) /\
+    run_chia P fuel (c23_flags ncm) sha256tree_prog t m = Ok (cc, h) /\
+    cn < cc.
+Proof. exact native_cheaper_run. Qed.
 
 Theorem C23_gap : forall ncm t,
   native_cost ncm t + 1000 * (tree_pairs t + 1) + 500 * tree_pairs t <= clvm_cost ncm t + 4.
@@ -40,6 +76,9 @@ Example C23_witness :
   native_cost true t = 3310743 /\ clvm_cost true t = 6256571.
 Proof. vm_compute. repeat split. Qed.
 
+Print Assumptions C23_native_is_run.
+Print Assumptions C23_clvm_is_run.
+Print Assumptions C23.
 Print Assumptions C23_native_lt_clvm.
 Print Assumptions C23_gap.
 Print Assumptions C23_per_byte_equal.
